@@ -11,6 +11,15 @@ C21  The scheduler graph is exactly the pruned dependency closure of the seeds.
      differ only in case collapse to one item and one of them is never scanned).
  R3  discovery enumerates every source suffix under every search path and
      registers every definition of every file item.
+ R4  innermost import wins (orientation x direction): ``get_all_import_map``
+     collects the scope chain inner-first and builds the map from the *reversed*
+     list (or outer-first and non-reversed): later entries overwrite earlier
+     ones, so the last one written must be the innermost import.
+ R5  documented scope/pattern matching: the key matchers that implement
+     disable / block / ignore receive the documented flags
+     (``ItemFactory._is_ignored``: pattern matching + parent scopes over the
+     union of config.disable and the per-item list; ``_add_children``: ignore
+     list with parent scopes).
 Not decided: closure equality; order dependence of set-based file enumeration
 (only matters when two files define the same name, which the property excludes).
 """
@@ -178,6 +187,67 @@ def run(ctx):
         val = m.const(S.module, sfx.node, S)
         ctx.judge('R3', 'source_suffixes', nontrivial=False, facts={'suffixes': list(val) if isinstance(val, (list, tuple)) else str(val)})
 
+    # ---- R4
+    ctx.rule('R4', 'get_all_import_map: (inner-first collection, reversed iteration) or (outer-first, forward): innermost import '
+                   'is written last into the map')
+    ctx.rule('R5', 'match_item_keys call sites for disable/block/ignore carry the documented flags')
+    imod = m.module_by_path(IT)
+    gim = imod.functions.get('get_all_import_map')
+    if gim is None:
+        raise AnalysisError('get_all_import_map vanished')
+    loop = [n for n in ast.walk(gim.node) if isinstance(n, ast.While)]
+    if len(loop) != 1:
+        raise AnalysisError('get_all_import_map: scope walk not recognised')
+    order = None
+    for st in loop[0].body:
+        if isinstance(st, ast.AugAssign) and ast.unparse(st.target) == 'imports' and isinstance(st.op, ast.Add):
+            order = 'inner-first'            # imports += parent imports
+        elif isinstance(st, ast.Assign) and ast.unparse(st.targets[0]) == 'imports' and isinstance(st.value, ast.BinOp):
+            l, r = ast.unparse(st.value.left), ast.unparse(st.value.right)
+            if r == 'imports' and 'scope' in l:
+                order = 'outer-first'        # imports = parent imports + imports
+            elif l == 'imports' and 'scope' in r:
+                order = 'inner-first'
+    if order is None:
+        raise AnalysisError('get_all_import_map: accumulation of parent imports not recognised')
+    gens = [g for n in ast.walk(gim.node) if isinstance(n, ast.GeneratorExp) for g in n.generators if 'imports' in ast.unparse(g.iter)]
+    if not gens:
+        raise AnalysisError('get_all_import_map: map construction not recognised')
+    rev = ast.unparse(gens[0].iter).count('reversed(') % 2 == 1
+    inner_last = (order == 'inner-first' and rev) or (order == 'outer-first' and not rev)
+    facts = {'collection': order, 'iteration': ast.unparse(gens[0].iter)}
+    (ctx.judge('R4', 'get_all_import_map precedence', facts=facts) if inner_last else
+     ctx.violation('R4', 'get_all_import_map:precedence', gim.where,
+                   f'imports are collected {order} and the map is built from `{ast.unparse(gens[0].iter)}`: the outermost import of a '
+                   f'name is written last and shadows a re-import in the inner scope (dependencies resolve to the wrong module)', facts=facts))
+    # ---- R5
+    ig = F.function('_is_ignored')
+    if ig is None:
+        raise AnalysisError('ItemFactory._is_ignored vanished')
+    calls = [c for c in ast.walk(ig.node) if isinstance(c, ast.Call) and X.call_name_of(c) == 'match_item_keys']
+    src = ast.unparse(ig.node)
+    ok = bool(calls)
+    why = []
+    for c in calls:
+        kw = {k.arg: ast.unparse(k.value) for k in c.keywords}
+        if kw.get('match_item_parents') != 'True':
+            ok = False
+            why.append(f'`{ast.unparse(c)[:90]}` lacks match_item_parents=True')
+        if kw.get('use_pattern_matching') != 'True':
+            ok = False
+            why.append(f'`{ast.unparse(c)[:90]}` lacks use_pattern_matching=True')
+    keys_ok = 'config.disable' in src and 'ignore' in src
+    if ok and keys_ok:
+        ctx.judge('R5', 'ItemFactory._is_ignored', facts={'calls': [ast.unparse(c) for c in calls]})
+    else:
+        ctx.violation('R5', 'ItemFactory._is_ignored:flags', ig.where,
+                      f'disable/block matching in _is_ignored: {why or "config.disable / ignore keys not both matched"}: an entry that names a '
+                      f'parent scope (module, derived type) no longer excludes its members')
+    ign_call = [c for c in ast.walk(ac.node) if isinstance(c, ast.Call) and X.call_name_of(c) == 'match_item_keys' and 'item.ignore' in ast.unparse(c)]
+    kw = {k.arg: ast.unparse(k.value) for k in ign_call[0].keywords} if ign_call else {}
+    (ctx.judge('R5', '_add_children ignore matching', facts=kw) if kw.get('match_item_parents') == 'True' else
+     ctx.violation('R5', '_add_children:ignore-flags', ac.where, 'ignore matching does not extend to parent scopes'))
+
 
 MUTANTS = [
     Mutant('expand-guard-dropped', SG,
@@ -193,6 +263,12 @@ MUTANTS = [
            "        if self.disable:\n            items = tuple(\n                item for item in items\n                if not SchedulerConfig.match_item_keys(item.name, self.disable)\n            )\n",
            "", expect=('R1', 'disable-filter')),
     Mutant('children-not-queued', SG, "                if children:\n                    queue.extend(children)\n", "", expect=('R1', '_populate:queue')),
+    Mutant('outer-import-wins', IT, "        imports += getattr(scope, 'imports', ())\n", "        imports = getattr(scope, 'imports', ()) + imports\n",
+           expect=('R4', 'precedence')),
+    Mutant('neutral-outer-first-forward', IT, "        imports += getattr(scope, 'imports', ())\n    return CaseInsensitiveDict(\n        (s.name, imprt)\n        for imprt in reversed(imports)",
+           "        imports = getattr(scope, 'imports', ()) + imports\n    return CaseInsensitiveDict(\n        (s.name, imprt)\n        for imprt in imports", expect=None),
+    Mutant('ignored-without-parents', FA, "            name, keys, use_pattern_matching=True, match_item_parents=True", "            name, keys, use_pattern_matching=True",
+           expect=('R5', '_is_ignored')),
     Mutant('repair-path-key', FA, "        item_name = str(path).lower()\n", "        item_name = str(path)\n", expect=None),
     Mutant('discover-one-suffix', SC, "for path in self.paths for ext in self.source_suffixes", "for path in self.paths for ext in self.source_suffixes[:1]",
            expect=('R3', '_discover:glob')),
